@@ -416,6 +416,7 @@ class SimOracle:
         frontier = [(start, [])]
         if all(self.sim.is_goal(s) for s in start):
             return []
+        self.last_closed = False
         for _d in range(depth):
             nxt = []
             for bel, plan in frontier:
@@ -441,6 +442,7 @@ class SimOracle:
                     nxt.append((tuple(succ), np_))
             frontier = nxt
             if not frontier:
+                self.last_closed = True          # the whole reachable belief space was explored: "None" is exact
                 break
         return None
 
@@ -469,3 +471,95 @@ class SimOracle:
                         return None, False
             frontier = nxt
         return None, True
+
+
+# ---------------------------------------------------------------------- hand-written corner problems
+class HandK(KGen):
+    """A hand-written problem with the interface of KGen (explicit possible initial states)."""
+
+    def __init__(self, label, build):
+        import unified_planning as up
+        from unified_planning.environment import Environment
+        self.up = up
+        self.rng = None
+        self.contingent = False
+        self.label = label
+        self.env = Environment()
+        self.em = self.env.expression_manager
+        self.problem, self.bits = build(self.env)
+        self.plain = self.problem
+        self.fluents = list(self.problem.fluents)
+        self.actions = list(self.problem.actions)
+        self.gfl = []
+        for f in self.fluents:
+            for args in product(*[list(self.problem.objects(pp.type)) for pp in f.signature]):
+                self.gfl.append(self.em.FluentExp(f, tuple(self.em.ObjectExp(o) for o in args)))
+        self.check_one_effect_per_ground_fluent()
+
+
+def hand_corpus():
+    from unified_planning.model import Fluent, Problem, InstantaneousAction, Object
+
+    def base(env, name, fluents):
+        p = Problem(name, env)
+        fs = [Fluent(n, env.type_manager.BoolType(), environment=env) for n in fluents]
+        for f in fs:
+            p.add_fluent(f, default_initial_value=False)
+        return p, fs
+
+    def case_split_precondition(env):
+        # a needs (u or v); u holds in one possible state, v in the other: [a] is conformant, but no single disjunct is known
+        em = env.expression_manager
+        p, (u, v, g) = base(env, "case_split_precondition", ["u", "v", "g"])
+        a = InstantaneousAction("a", _env=env)
+        a.add_precondition(em.Or(u(), v()))
+        a.add_effect(g, True)
+        p.add_action(a)
+        p.add_goal(g())
+        return p, [(True, False, False), (False, True, False)]
+
+    def merge_needed(env):
+        # g becomes true through different rules in the two possible states; only the merge action can conclude K g
+        em = env.expression_manager
+        p, (u, g, h) = base(env, "merge_needed", ["u", "g", "h"])
+        a1 = InstantaneousAction("a1", _env=env)
+        a1.add_effect(g, True, u())
+        a2 = InstantaneousAction("a2", _env=env)
+        a2.add_effect(g, True, em.Not(u()))
+        b = InstantaneousAction("b", _env=env)
+        b.add_precondition(g())
+        b.add_effect(h, True)
+        for x in (a1, a2, b):
+            p.add_action(x)
+        p.add_goal(h())
+        return p, [(True, False, False), (False, False, False)]
+
+    def cancellation_needed(env):
+        # K(not g) must be forgotten when g may have become true: otherwise the compiled problem would accept [a, c]
+        em = env.expression_manager
+        p, (u, g, h) = base(env, "cancellation_needed", ["u", "g", "h"])
+        a = InstantaneousAction("a", _env=env)
+        a.add_effect(g, True, u())
+        c = InstantaneousAction("c", _env=env)
+        c.add_precondition(em.Not(g()))
+        c.add_effect(h, True)
+        p.add_action(a)
+        p.add_action(c)
+        p.add_goal(h())
+        p.add_goal(g())
+        return p, [(True, False, False), (False, False, False)]
+
+    def dominated_state(env):
+        # the state where the helpful fluent u already holds is dominated by the one where it does not
+        em = env.expression_manager
+        p, (u, g, z) = base(env, "dominated_state", ["u", "g", "z"])
+        a = InstantaneousAction("a", _env=env)
+        a.add_effect(u, True)
+        b = InstantaneousAction("b", _env=env)
+        b.add_effect(g, True, u())
+        p.add_action(a)
+        p.add_action(b)
+        p.add_goal(g())
+        return p, [(True, False, False), (False, False, True), (False, False, False)]
+
+    return [HandK(f.__name__, f) for f in (case_split_precondition, merge_needed, cancellation_needed, dominated_state)]
